@@ -434,6 +434,33 @@ def run(tier, seed, replay=None):
                     reported_txt += 1
                     R.violation({'dialect': 'mindsdb', 'sql': ctx.format(txt), 'identifier_text': txt, 'parts_written': want, 'parts_held': got,
                                  'what': 'an identifier path is not held as the parts its text denotes'})
+        # user and system variables in their four spellings (@v, @`v`, @"v", @'v'; @@ likewise): the node holds exactly the name written
+        from mindsdb_sql.parser.ast import Variable as Var_
+        n_var = n_var_fail = 0
+        for _ in range(300 if tier == 'quick' else 3000):
+            first = rng.choice('aB_x$.')
+            body = ''.join(rng.choice('aB1_."\' -$`') for _ in range(rng.randint(0, 3)))
+            sysv = rng.random() < 0.3
+            st = rng.choice(['bare', '`', '"', "'"])
+            nm = first + body
+            if st == 'bare':
+                nm = re.sub(r'[^A-Za-z_.$]', '', nm)       # (a bare name is letters, _ . $ only)
+            elif st in nm:
+                nm = nm.replace(st, 'q')
+            txt = ('@@' if sysv else '@') + (nm if st == 'bare' else st + nm + st)
+            n_var += 1
+            evaluations += 1
+            try:
+                node = parse_sql('select ' + txt, 'mindsdb').targets[0]
+                got = (node.value, bool(node.is_system_var)) if isinstance(node, Var_) else f'<{type(node).__name__}>'
+            except Exception as e:
+                got = f'<{type(e).__name__}>'
+            if got != (nm, sysv):
+                n_var_fail += 1
+                if n_var_fail <= 2:
+                    R.violation({'dialect': 'mindsdb', 'sql': 'select ' + txt, 'name_written': nm, 'system_variable': sysv, 'held': list(got) if isinstance(got, tuple) else got,
+                                 'what': 'a variable is not held under the name its text denotes'})
+        stats['variables'] = {'read': n_var, 'fail': n_var_fail}
         stats['identifier_texts'] = {'read': n_txt, 'fail': n_txt_fail}
     for e in broken:
         if not any(not nf for _, nf in R.violations):
